@@ -5,6 +5,7 @@ channel, locks, signal, clock and hash seed are owned by s4_verif_rt according t
 Everything here is a pure function of the integer seed and of the code under test.
 """
 import base64
+import collections
 import hashlib
 import json
 import os
@@ -124,7 +125,7 @@ class Plan:
 
     def __init__(self, seed=0, policy="random", stick=0, pct_depth=0, pct_steps=1000,
                  select_pick="random", signals=(), budget=200000, post_budget=2000, post_rr=True,
-                 now=None, choices=None, picks=None, hashseed=None):
+                 now=None, choices=None, picks=None, hashseed=None, iofault=None):
         self.seed = seed
         self.policy = policy
         self.stick = stick
@@ -139,6 +140,7 @@ class Plan:
         self.choices = choices
         self.picks = picks
         self.hashseed = hashseed if hashseed is not None else (seed & 0xFFFFFFFF)
+        self.iofault = iofault      # None | "sw=<seed>" | "epipe=<N>" | "enospc=<N>" (';'-joined): see preload/seed.c
 
     def text(self, trace_path):
         L = ["seed=%d" % self.seed, "policy=%s" % self.policy, "stick=%d" % self.stick,
@@ -196,8 +198,12 @@ def random_plan(rng, n_workers, signals=(), now=None, budget=200000, policies=No
         kw["stick"] = rng.choice((0, 500))
     elif pol == "first_worker":
         pol = "first:%d" % (2 + rng.randrange(max(1, n_workers)))
-    return Plan(seed=rng.getrandbits(63), policy=pol, select_pick=rng.choice(("random", "random", "lowest", "highest")),
+    plan = Plan(seed=rng.getrandbits(63), policy=pol, select_pick=rng.choice(("random", "random", "lowest", "highest")),
                 signals=signals, now=now, budget=budget, **kw)
+    # one run in four: stdout accepts only part of most writes (a pipe may; the bytes printed must not change)
+    if rng.random() < 0.25:
+        plan.iofault = "sw=%d" % rng.getrandbits(31)
+    return plan
 
 
 # ------------------------------------------------------------------------------------------------
@@ -340,6 +346,7 @@ class Result:
 
 
 _RUN_COUNTER = [0]
+IOFAULT_RUNS = collections.Counter()
 
 try:
     import ctypes
@@ -422,6 +429,10 @@ def _execute_once(scn, plan, keep, wall_cap, binary, want_trace):
             "HOME": wd,
             "LANG": "C.UTF-8",
         }
+        if getattr(plan, "iofault", None):
+            env["S4SIM_IOFAULT"] = plan.iofault
+            for part in plan.iofault.split(";"):
+                IOFAULT_RUNS[part.split("=")[0]] += 1
         so = open(os.path.join(meta, "stdout"), "wb")
         se = open(os.path.join(meta, "stderr"), "wb")
         t0 = time.time()
